@@ -402,7 +402,12 @@ def _loops(ot, body_open):
 def weave_fn(src, loc, fc, origins, as_stub=False, canary=None):
     """Return (OText of the woven fn item, info dict)."""
     ot = src.otext(loc['start'], loc['end'], origins)
-    body_rel = loc['body_open'] - loc['start']
+    # T8: drop the visibility modifier (single-module verification)
+    m = re.match(r'pub(\s*\(\s*crate\s*\))?\s+', ot.s)
+    vis = m.end() if m else 0
+    if vis:
+        ot.replace(0, vis, '', 0)
+    body_rel = loc['body_open'] - loc['start'] - vis
     info = {'file': src.rel, 'lines': [src.line_of(loc['start']), src.line_of(loc['end'] - 1)],
             'sha256': hashlib.sha256(ot.s.encode()).hexdigest(), 'rewrites': [], 'outlined': []}
     what = fc.key if fc else '?'
@@ -486,7 +491,13 @@ def weave_fn(src, loc, fc, origins, as_stub=False, canary=None):
     if fc is not None and not as_stub:
         # 3. anchored inserts (before loops / prologue so that ordinals and offsets stay simple: do anchors first)
         for where, anchor, nth, text, lno in fc.inserts:
-            a, b = _find_anchor(ot, anchor, nth, '%s @%s (%s:%d)' % (what, where, fc.vc, lno))
+            try:
+                a, b = _find_anchor(ot, anchor, nth, '%s @%s (%s:%d)' % (what, where, fc.vc, lno))
+            except Undecided as e:
+                # a proof hint lost its anchor: weave without it (a proof that still goes through is
+                # still a proof); the caller must not promote a failure in this function to VIOLATION
+                info.setdefault('lost_anchors', []).append(str(e))
+                continue
             if a <= body_rel:
                 raise Undecided('%s: anchor lies outside the body' % what)
             pos = a if where == 'before' else b
@@ -628,6 +639,32 @@ def build_unit(unit_path, canary=None, mutate=None):
                     if not hit:
                         break
                     ot.replace(hit[0], hit[1], '', 0)
+            if p['item'] == 'struct':
+                # T8: widen visibility (pub struct, pub fields) -- single-module verification, no semantic content
+                while 'pub(crate)' in ot.s:
+                    a = ot.s.index('pub(crate)')
+                    ot.replace(a, a + len('pub(crate)'), 'pub', ot.orig[a])
+                toks = lex(ot.s)
+                if toks[0].text != 'pub':
+                    ot.insert(toks[0].start, 'pub ', ot.orig[toks[0].start])
+                    toks = lex(ot.s)
+                opens = [i for i, t in enumerate(toks) if t.text == '{']
+                if opens:
+                    o = opens[0]
+                    c = match_close(toks, o)
+                    depth = 0
+                    ins = []
+                    for i in range(o, c):
+                        t = toks[i]
+                        if t.text in '{(<[' and t.kind == 'punct':
+                            depth += 1
+                        elif t.text in '})>]' and t.kind == 'punct':
+                            depth -= 1
+                        elif depth == 1 and t.kind == 'ident' and toks[i + 1].text == ':' and toks[i + 2].text != ':' \
+                                and toks[i - 1].text in ('{', ','):
+                            ins.append(t.start)
+                    for a in reversed(ins):
+                        ot.insert(a, 'pub ', ot.orig[a])
             for frm, to in p.get('map', []):
                 if ot.s.count(frm) < 1:
                     raise Undecided('item %s: map source %r not found' % (p['name'], frm))
@@ -670,8 +707,9 @@ def build_unit(unit_path, canary=None, mutate=None):
                 hdr = p.get('header', header)
                 parts.append(OText.plain(hdr + ' {\n', origins.get('weave')))
                 parts.extend(body_parts)
-                if 'extra' in p:
-                    add_plain(open(os.path.join(VERIF, p['extra']), encoding='utf-8').read(), 'verif:' + p['extra'])
+                ex = p.get('extra', [])
+                for e in ([ex] if isinstance(ex, str) else ex):
+                    add_plain(open(os.path.join(VERIF, e), encoding='utf-8').read(), 'verif:' + e)
                 parts.append(OText.plain('}\n', origins.get('weave')))
             else:
                 parts.extend(body_parts)
